@@ -127,7 +127,10 @@ pub async fn render_to_string_await_suspense(f: impl FnOnce() -> View) -> String
                     create_effect(move || {
                         if !use_is_loading_global() {
                             if let Some(tx) = tx.take() {
-                                tx.send(()).ok().unwrap();
+                                // The receiver is gone if this render was cancelled (its future
+                                // dropped): the effect then outlives it until the next render
+                                // disposes the root, and must not panic in the middle of that.
+                                let _ = tx.send(());
                             }
                         }
                     });
